@@ -99,7 +99,9 @@ func (j *jsonBuilder) mergeEntities(left *astjson.Value, rightResult resultData)
 }
 
 // mergeWithPath merges a JSON value with a resolved value by its path.
-func (j *jsonBuilder) mergeWithPath(base *astjson.Value, resolved *astjson.Value, path ast.Path) error {
+// If the resolved values belong to an entity type (required fields or field resolvers of an entity),
+// they are only merged into the entities of that type.
+func (j *jsonBuilder) mergeWithPath(base *astjson.Value, resolved *astjson.Value, path ast.Path, entityType string) error {
 	if len(path) == 0 {
 		return errors.New("path is empty")
 	}
@@ -120,6 +122,9 @@ func (j *jsonBuilder) mergeWithPath(base *astjson.Value, resolved *astjson.Value
 	switch current.Type() {
 	case astjson.TypeArray:
 		arr := current.GetArray()
+		if entityType != "" && searchPath[0].FieldName.String() == entityPath {
+			arr = j.entitiesOfType(arr, entityType)
+		}
 		values, err := j.flattenList(arr, searchPath[1:])
 		if err != nil {
 			return err
@@ -142,6 +147,19 @@ func (j *jsonBuilder) mergeWithPath(base *astjson.Value, resolved *astjson.Value
 	}
 
 	return nil
+}
+
+// entitiesOfType returns the entities which have been requested for the given entity type.
+// Like mergeEntities it relies on the positions of the representations of that type.
+func (j *jsonBuilder) entitiesOfType(entities []*astjson.Value, entityType string) []*astjson.Value {
+	result := make([]*astjson.Value, 0, len(entities))
+	for _, index := range newEntityIndexMap(entityType, getRepresentations(j.variables)) {
+		if index < len(entities) {
+			result = append(result, entities[index])
+		}
+	}
+
+	return result
 }
 
 // flattenObject flattens a JSON object into a list of values.
